@@ -292,6 +292,11 @@ func (c *ShardedMap) Restore(r io.Reader) (int, error) {
 			return n, err
 		}
 
+		// Restored expirations have to be collected by delete expired job, even with UnlimitedTTL.
+		if e.E != 0 {
+			atomic.AddInt64(&c.t.expirationsSet, 1)
+		}
+
 		h := xxhash.Sum64(e.K)
 		b := &c.hashedBuckets[h%shards]
 
